@@ -14,7 +14,11 @@ check("C13", "model_checking",
       "sequences over 12 keys sampled; iteration is atomic; MemDB is the reference semantics; chain level: canonical database "
       "digest and live root around every speculative validation / proposal / read-only query, read-only view of the head and of "
       "random retained heights vs what was committed, on seeded histories with fork switches (clauses CanonUntouched, "
-      "HistoricalExact, ReadonlyHeadExact of Trace_Replicas)",
+      "HistoricalExact, ReadonlyHeadExact of Trace_Replicas); state-object level (StateViews.tla): one abstract cell per KIND of "
+      "in-memory buffer a view constructor must not share (11 kinds, 106 mutating methods of StateDB / IdentityStateDB in an explicit "
+      "table), canonical object + views (ForCheck / ForCheckWithOverwrite / Readonly) + a control object that performs the canonical "
+      "calls only; TLC exports one shortest path per stratum (quick: 5400 strata -> 29 000 cases, 139 000 real calls) and validates "
+      "CanonUntouched, ViewIsolated, CanonMatchesControl, HistoricalExact, ResetRestores, CommitExact, SameContentSameRoot on the trace",
       "TLA+ refinement model + TLC-exported edge cover replayed on real code + TLC trace validation",
       "DESIGN.md#c13")
 
